@@ -21,6 +21,7 @@ import (
 
 	"github.com/ory/keto/internal/relationtuple"
 	"github.com/ory/keto/internal/x"
+	"github.com/ory/keto/internal/x/verifhook"
 	"github.com/ory/keto/ketoapi"
 )
 
@@ -195,6 +196,7 @@ func (p *Persister) DeleteRelationTuples(ctx context.Context, rs ...*relationtup
 			if err := p.Connection(ctx).RawQuery(q, args...).Exec(); err != nil {
 				return sqlcon.HandleError(err)
 			}
+			verifhook.Point("sql.delete.chunk")
 		}
 		return nil
 	})
@@ -329,6 +331,7 @@ func (p *Persister) WriteRelationTuples(ctx context.Context, rs ...*relationtupl
 			if err := p.Connection(ctx).RawQuery(q, args...).Exec(); err != nil {
 				return sqlcon.HandleError(err)
 			}
+			verifhook.Point("sql.insert.chunk")
 		}
 		return nil
 	})
@@ -346,6 +349,7 @@ func (p *Persister) TransactRelationTuples(ctx context.Context, ins []*relationt
 		if err := p.WriteRelationTuples(ctx, ins...); err != nil {
 			return err
 		}
+		verifhook.Point("sql.transact.mid")
 		return p.DeleteRelationTuples(ctx, del...)
 	})
 }
